@@ -173,11 +173,6 @@ Proof.
   - inversion E; subst; apply wf_primary; exact H.
   - destruct (is_values v); inversion E; subst; exact H.
 Qed.
-Lemma wf_last_red : forall m st v a, wf_val st v -> last_red m v = Ok a -> wf_val st a.
-Proof.
-  intros m st v a H E. destruct m; simpl in E; try (inversion E; subst; try exact H; apply wf_primary; exact H).
-  destruct (is_values v); inversion E; subst; exact H.
-Qed.
 Lemma wf_or_step : forall m st v r, wf_val st v -> or_step m v = Ok (Some r) -> wf_val st r.
 Proof.
   intros m st v r H E. unfold or_step in E.
@@ -603,10 +598,8 @@ Proof.
     intros rs s2 E2 W2 V2. apply good_ret; [assumption|apply wf_val_mk_list; assumption].
   - (* EDolist *)
     eapply good_bind; [apply Hev; assumption|]. intros v s E Ws Vs.
-    apply good_bindo; [assumption|]. intros v' Hv'.
-    assert (Vv' : wf_val s v').
-    { destruct (is_values v); [eapply wf_last_red; eauto|inversion Hv'; subst; assumption]. }
-    destruct (list_of v') as [vs|] eqn:L; [|apply good_err; assumption].
+    assert (Vv' : wf_val s (primary v)) by (apply wf_primary; assumption).
+    destruct (list_of (primary v)) as [vs|] eqn:L; [|apply good_err; assumption].
     assert (Ssc : wf_scope s sc) by (eapply wf_scope_ext; eauto).
     change (mkSt (frames s ++ [[(x, VNil)]]) (funs s) (trace s)) with (snd (alloc s [(x, VNil)])).
     assert (E3 : ext s (snd (alloc s [(x, VNil)]))) by (apply ext_alloc, ext_refl).
@@ -620,8 +613,7 @@ Proof.
       eapply wf_scope_ext; [apply ext_bind_in, ext_refl|]. eapply wf_scope_ext; [exact E4|exact S3].
   - (* EDotimes *)
     eapply good_bind; [apply Hev; assumption|]. intros v s E Ws Vs.
-    apply good_bindo; [assumption|]. intros v' Hv'.
-    destruct v'; try (apply good_err; assumption).
+    destruct (primary v); try (apply good_err; assumption).
     assert (Ssc : wf_scope s sc) by (eapply wf_scope_ext; eauto).
     change (mkSt (frames s ++ [[(x, VNil)]]) (funs s) (trace s)) with (snd (alloc s [(x, VNil)])).
     assert (E3 : ext s (snd (alloc s [(x, VNil)]))) by (apply ext_alloc, ext_refl).
